@@ -571,7 +571,14 @@ func main() {
 							r.Violate("", "a throwing / invalid script was reported as success", wit)
 						}
 					default:
-						if o.err != "" {
+						if strings.Contains(o.err, "timed out") && o.elapsed >= limit {
+							// On this run the call did take longer than its limit (a loaded machine:
+							// see canary_late_ms), so the script was not one "that finishes within the
+							// limit" and stopping it is what the property asks for.  A time-out
+							// reported BEFORE the limit has passed stays a violation.
+							r.Count("value_scripts_past_their_limit_on_this_run", 1)
+							r.Inconclusive("value script slower than its limit on this run")
+						} else if o.err != "" {
 							r.Violate("", "a script that finishes within the limit failed: "+o.err, wit)
 						} else {
 							want := sc.Want
